@@ -216,6 +216,11 @@ fn check_ignore_semantics(
         }
         res.count("c14_checked_reported", 1);
         if !actual.iter().any(|a| a == r) {
+            if DEBUG.load(std::sync::atomic::Ordering::Relaxed) {
+                eprintln!("C14 debug: reference = {:?}", reference.iter().map(|l| format!("{:?} {}", l.span, l.message)).collect::<Vec<_>>());
+                eprintln!("C14 debug: actual    = {:?}", actual.iter().map(|l| format!("{:?} {}", l.span, l.message)).collect::<Vec<_>>());
+                eprintln!("C14 debug: tracked   = {:?}", tracked.iter().map(|t| format!("{:?} {} {:?}", t.span, t.id.message, t.id.flagged)).collect::<Vec<_>>());
+            }
             // which ignored identity swallowed it?
             let near: Option<&Identity> = ids.iter().find(|i| i.message == id.message && i.flagged == id.flagged && i.kind == id.kind && i.suggestions == id.suggestions);
             let differs = near.map(|n| {
@@ -552,7 +557,16 @@ fn run_wasm(job: &Job, res: &mut RunResult) {
                 let mut noign = fresh_linter(&m, None);
                 let all = lints_json(&noign.lint(s.clone(), lang(markdown)));
                 if cleared != all {
-                    viol(res, prop, "clear_ignored", "clear_incomplete", format!("{what}: after clear_ignored_lints the result differs from a linter that never ignored anything"), json!({}));
+                    let missing: Vec<&String> = all.iter().filter(|x| !cleared.contains(x)).collect();
+                    let extra: Vec<&String> = cleared.iter().filter(|x| !all.contains(x)).collect();
+                    viol(
+                        res,
+                        prop,
+                        "clear_ignored",
+                        if missing.is_empty() && extra.is_empty() { "order_differs" } else { "clear_incomplete" },
+                        format!("{what}: after clear_ignored_lints the result differs from a linter that never ignored anything; missing {:?}; extra {:?}", missing.iter().take(2).collect::<Vec<_>>(), extra.iter().take(2).collect::<Vec<_>>()),
+                        json!({}),
+                    );
                 }
                 if let Err(e) = long.import_ignored_lints(exported.clone()) {
                     viol(res, prop, "export_import_ignored", "import_failed", format!("{what}: import_ignored_lints rejects what export_ignored_lints produced: {e}"), json!({}));
